@@ -34,7 +34,7 @@ var pureLibs = map[string]bool{
 	"strings.ContainsRune": true, "textproto.CanonicalMIMEHeaderKey": true, "(http.Header).Get": true,
 	"(error).Error": true, "ssa:deferstack": true, "ssa:wrapnilchk": true,
 	"base64.(*Encoding).EncodeToString": true, "(*base64.Encoding).EncodeToString": true,
-	"metadata.Join": true, "(metadata.MD).Copy": true,
+	"(metadata.MD).Copy": true,
 	"metadata.NewIncomingContext": true, "context.WithTimeout": true, "context.WithCancel": true,
 	"(*sync.WaitGroup).Add": true, "(*sync.WaitGroup).Done": true, "(*sync.WaitGroup).Wait": true, "(*sync.Pool).Put": true,
 	"(http.Flusher).Flush": true,
